@@ -39,5 +39,6 @@ def main (args : List String) : IO UInt32 := do
   | ["state"] => loopStateful stdin stdout State.init stateStep; return 0
   | ["contexts"] => loopStateful stdin stdout ({} : Contexts.Reg) contextsStep; return 0
   | ["filter"] => loopStateful stdin stdout ({ me := 0, inst := 0 } : Filter.Filt) filterStep; return 0
+  | ["trigger"] => loopStateful stdin stdout ({} : Trigger.Trig) triggerStep; return 0
   | ["node"] => loopStateful stdin stdout ([] : Nodes) nodeStep; return 0
   | _ => IO.eprintln "usage: lhdriver <suite>"; return 2
